@@ -579,6 +579,7 @@ type c42Case struct {
 	cc             c42CCSnap
 	pc             c42PCSnap
 	demandLimited  int64
+	pcDemandMax    int64 // highest demandUpTo the producer controller ever held (seen at its turn starts)
 	demandAbove    int64
 	demandAboveWit map[string]any
 	lastPCMsg      string
@@ -901,7 +902,14 @@ func (sc *c42Case) onConsumerController(c *consumerController, ctx *ReceiveConte
 				if sm.Chunked() {
 					kind = "chunked"
 				}
-				sc.violate("C43", "sequenced-message-beyond-requested:"+kind, map[string]any{"seq": sm.Seq(), "highest_requested": reqMax, "message": sm.MessageID(), "chunked": sm.Chunked(), "consumer_confirmed": snap.Confirmed, "window": c.window,
+				// root-cause split: did the producer's own demand variable exceed
+				// what the consumer requested, or did it send beyond its own demand?
+				if sm.Seq() <= sc.pcDemandMax {
+					kind += ":producer-demand-above-requested"
+				} else {
+					kind += ":beyond-producer-demand"
+				}
+				sc.violate("C43", "sequenced-message-beyond-requested:"+kind, map[string]any{"producer_highest_demand_seen": sc.pcDemandMax, "seq": sm.Seq(), "highest_requested": reqMax, "message": sm.MessageID(), "chunked": sm.Chunked(), "consumer_confirmed": snap.Confirmed, "window": c.window,
 					"producer_demand_above_requested_first_seen": sc.demandAboveWit, "producer_demand_above_requested_count": sc.demandAbove})
 			}
 			if sm.Seq() == reqMax {
@@ -919,6 +927,9 @@ func (sc *c42Case) onProducerController(c *producerController, ctx *ReceiveConte
 	sc.pc = snap
 	if snap.HasConsumer && snap.Handshake == producerHandshakeIdle && snap.Current >= snap.Demand && snap.Demand > 0 {
 		sc.demandLimited++
+	}
+	if snap.Demand > sc.pcDemandMax {
+		sc.pcDemandMax = snap.Demand
 	}
 	if snap.Demand > sc.reqMax && sc.reqMax > 0 {
 		// not a violation by itself (nothing was sent yet): the state from
